@@ -167,6 +167,106 @@ def _task(bi):
     return out
 
 
+# ---------------------------------------------------------------------------- HashMap histories (text family)
+HM_KEYS = ["pear", "date", "cherry", "banana", "kiwi", "fig"]      # three pairs that share a bucket in a 16-slot FNV-1a table
+
+
+def hm_sequences(tier):
+    ops = [("put", k) for k in HM_KEYS] + [("rm", k) for k in HM_KEYS]
+    seqs = [(o,) for o in ops] + [(a, b) for a in ops for b in ops]
+    if tier == "quick":
+        for x in HM_KEYS:
+            for y in HM_KEYS:
+                if x != y:
+                    seqs += [(("put", x), ("put", y), ("rm", x)), (("put", x), ("put", y), ("rm", y)), (("put", x), ("rm", x), ("put", y)),
+                             (("put", x), ("put", y), ("rm", x), ("put", y)), (("put", x), ("put", y), ("rm", x), ("put", x))]
+    else:
+        import itertools
+        seqs += list(itertools.product(ops, repeat=3))
+        ops4 = [("put", k) for k in HM_KEYS[:4]] + [("rm", k) for k in HM_KEYS[:4]]
+        seqs += list(itertools.product(ops4, repeat=4))
+    return seqs
+
+
+def hm_function(name, seq):
+    body = ["    let hm: HashMap<string, int> = (map_new)"]
+    model = {}
+    for n, (op, k) in enumerate(seq):
+        if op == "put":
+            body.append('    (map_put hm "%s" %d)' % (k, 10 + n))
+            model[k] = 10 + n
+        else:
+            body.append('    (map_remove hm "%s")' % k)
+            model.pop(k, None)
+    exp = []
+    for k in HM_KEYS:
+        body.append('    (println (map_has hm "%s"))' % k)
+        exp.append("true" if k in model else "false")
+        body.append('    if (map_has hm "%s") { (println (map_get hm "%s")) } else { (println -1) }' % (k, k))
+        exp.append(str(model.get(k, -1)))
+    body.append("    (println (map_size hm))")
+    exp.append(str(len(model)))
+    body.append("    return (map_size hm)")
+    src = "fn %s() -> int {\n%s\n}\nshadow %s {\n    (println (%s))\n}\n" % (name, "\n".join(body), name, name)
+    return src, "\n".join(exp) + "\n" + str(len(model)) + "\n"
+
+
+def _hm_task(args):
+    bi, names, srcs = args
+    lang = _ST["lang"]
+    p = os.path.join(lang.work, "hm%d.nano" % bi)
+    main = "fn main() -> int {\n" + "".join('    (println "@@%s")\n    (println (%s))\n' % (n, n) for n in names) + '    (println "@@end")\n    return 0\n}\nshadow main { assert true }\n'
+    with open(p, "w") as f:
+        f.write("".join(srcs) + main)
+    exe = p[:-5] + ".bin"
+    rc, out, err = common.run([lang.tree.exe("nanoc_c"), p, "-o", exe, "--verbose"], timeout=600, cwd=lang.work, envx=lang.envx, tmp=lang.tmp)
+    txt = out.decode(errors="replace")
+    ev = {}
+    for n in names:
+        m = re.search(r"Testing %s\.\.\. (.*?)(PASSED|FAILED)" % re.escape(n), txt, re.S)
+        ev[n] = (m.group(1), m.group(2)) if m else None
+    nat = {}
+    if rc == 0 and os.path.exists(exe):
+        rc2, o2, e2 = common.run([exe], timeout=60, cwd=lang.work, tmp=lang.tmp)
+        parts = o2.decode(errors="replace").split("@@")
+        for part in parts:
+            if "\n" in part:
+                nm, rest = part.split("\n", 1)
+                nat[nm] = rest
+        os.unlink(exe)
+    return bi, rc, (out + err)[-3000:].decode(errors="replace"), ev, nat
+
+
+def hashmap_family(rep, tier, lang):
+    seqs = hm_sequences(tier)
+    funcs = [("hm%d" % i,) + hm_function("hm%d" % i, sq) + (sq,) for i, sq in enumerate(seqs)]
+    B = 60
+    jobs = [(bi, [f[0] for f in funcs[bi:bi + B]], [f[1] for f in funcs[bi:bi + B]]) for bi in range(0, len(funcs), B)]
+    byname = dict((f[0], f) for f in funcs)
+    judged = 0
+    for bi, rc, diag, ev, nat in common.pmap(_hm_task, jobs):
+        for n, got in ev.items():
+            _n, src, exp, sq = byname[n]
+            judged += 1
+            desc = " ".join("%s(%s)" % o for o in sq)
+            if got is None:
+                rep.violation("c03:hm:noeval", {"program.nano": src, "diag.txt": diag}, "HashMap history %s: nanoc did not run the shadow test (rc %s): %s" % (desc, rc, diag.strip()[-200:].replace("\n", " | ")))
+                continue
+            text, verdict = got
+            if text != exp:
+                rep.violation("c03:hm:%s" % ("/".join(o[0] for o in sq)), {"program.nano": src, "expected.txt": exp, "evaluator.txt": text, "native.txt": nat.get(n, "(not run)")},
+                              "HashMap history %s: the evaluator prints %r in the shadow block, a map (and the compiled program: %r) gives %r" % (desc, text[:80], nat.get(n, "?")[:60], exp[:80]),
+                              "bin/nanoc_c program.nano -o p --verbose")
+            elif n in nat and nat[n] != exp:
+                pass      # the compiled program disagreeing with a plain map is C01/C02/C20 territory
+    rep.count("states", judged)
+    rep.count("transitions", judged)
+    rep.count("traces_validated_against_impl", judged)
+    rep.coverage["hashmap_histories"] = judged
+    rep.sample({"hashmap_history": [list(o) for o in seqs[len(seqs) // 2]], "keys": HM_KEYS})
+    return judged
+
+
 def run(tier):
     rep = common.Report("C03", tier)
     tree = common.build_tree("plain")
@@ -244,6 +344,7 @@ def run(tier):
         for pb in problems:
             rep.violation("c03:%s:%s" % (cid, pb[:30]), {"program.nano": src(), "expected.txt": exp, "evaluator.txt": text, "native.txt": nat or "(not run)"},
                           "%s [%s]: %s" % (cid, case["layer"], pb), "bin/nanoc_c program.nano -o p --verbose   # text between 'Testing <f>... ' and PASSED/FAILED")
+    hashmap_family(rep, tier, lang)
     rep.count("states", judged)
     rep.count("traces_validated_against_impl", judged)
     rep.coverage.update({"cases": len(cases), "with_true_assertions": asserted, "with_mirrored_false_assertion": mirrored,
